@@ -16,9 +16,10 @@ The composition is tied to `loader.LoadModelWithContext` by the correspondence s
 namespace CV.C01.Whole
 open CV CV.Pipeline
 
-/-- the four reviewed assertion sites -/
+/-- the three reviewed assertion sites (a fourth, `transformKeyValue`'s `e.(string)`, was repaired in round 5:
+`fix: transformKeyValue reports a non-string list item as an error instead of panicking`) -/
 def reviewedSites : List String :=
-  ["transform.transformKeyValue", "validation.init.checkFileObject", "validation.checkPath", "validation.checkDeviceRequest"]
+  ["validation.init.checkFileObject", "validation.checkPath", "validation.checkDeviceRequest"]
 
 theorem omitEmpty_never_panics (pats : List (List String)) (d : Val) (s : String) : Pipeline.omitEmpty pats d ≠ .panic s := by
   unfold Pipeline.omitEmpty
@@ -105,8 +106,8 @@ theorem finishLoad_never_panics (c : Cfg) (d : Val.KVs) (s : String) : finishLoa
       · intro h; cases h
       · intro h; exact absurd (ofC11_panic h) (C11.normalize_never_panics _ _ _ _)
 
-theorem mergeStages_only_panic_sites (c : Cfg) (dict : Val) (cfg : Val.KVs) (s : String)
-    (h : mergeStages c dict cfg = .panic s) : s = "transform.transformKeyValue" := by
+theorem mergeStages_never_panics (c : Cfg) (dict : Val) (cfg : Val.KVs) (s : String)
+    (h : mergeStages c dict cfg = .panic s) : False := by
   unfold mergeStages at h
   rcases bind_panic h with h1 | ⟨d1, _, h⟩
   · exact absurd (ofMerge_panic h1) (C04.merge_never_panics _ _ _)
@@ -115,35 +116,35 @@ theorem mergeStages_only_panic_sites (c : Cfg) (dict : Val) (cfg : Val.KVs) (s :
   rcases bind_panic h with h1 | ⟨d3, _, h⟩
   · exact absurd h1 (schemaStage_never_panics _ _ _)
   rcases bind_panic h with h1 | ⟨d4, _, h⟩
-  · exact C01.Pipeline.canonical_only_panic_site _ _ _ (ofShort_panic h1)
+  · exact C01.Pipeline.canonical_never_panics _ _ _ (ofShort_panic h1)
   rcases bind_panic h with h1 | ⟨d5, _, h⟩
   · exact absurd h1 (omitEmpty_never_panics _ _ _)
   · exact absurd (ofMerge_panic h) (C04.enforceTop_never_panics _ _)
 
 /-- one document: `processRawYaml` -/
 theorem processDoc_only_panic_sites (c : Cfg) (dict : Val) (cfg : Val.KVs) (s : String)
-    (h : processDoc c dict cfg = .panic s) : s = "transform.transformKeyValue" := by
+    (h : processDoc c dict cfg = .panic s) : False := by
   unfold processDoc at h
   rcases bind_panic h with h1 | ⟨cfg', _, h⟩
   · exact absurd h1 (interpStage_never_panics _ _ _)
   rcases bind_panic h with h1 | ⟨cfg'', _, h⟩
   · exact absurd h1 (extendsStage_never_panics _ _ _)
-  · exact mergeStages_only_panic_sites _ _ _ _ h
+  · exact mergeStages_never_panics _ _ _ _ h
 
 /-- one document read from YAML text, `!reset` / `!override` included -/
 theorem processNode_only_panic_sites (c : Cfg) (dict : Val) (n : Reset.YNode) (s : String)
-    (h : processNode c dict n = .panic s) : s = "transform.transformKeyValue" := by
+    (h : processNode c dict n = .panic s) : False := by
   unfold processNode at h
   split at h
   · rcases bind_panic h with h1 | ⟨cfg', _, h⟩
     · exact absurd h1 (interpStage_never_panics _ _ _)
     rcases bind_panic h with h1 | ⟨cfg'', _, h⟩
     · exact absurd h1 (extendsStage_never_panics _ _ _)
-    · exact mergeStages_only_panic_sites _ _ _ _ h
+    · exact mergeStages_never_panics _ _ _ _ h
   · cases h
 
 theorem processNodes_only_panic_sites (c : Cfg) : ∀ (ns : List Reset.YNode) (dict : Val) (s : String),
-    processNodes c dict ns = .panic s → s = "transform.transformKeyValue"
+    processNodes c dict ns = .panic s → False
   | [], _, _, h => by cases h
   | n :: r, dict, s, h => by
     unfold processNodes at h
@@ -155,7 +156,7 @@ theorem processNodes_only_panic_sites (c : Cfg) : ∀ (ns : List Reset.YNode) (d
       exact processNode_only_panic_sites c dict n s hd
 
 theorem processFiles_only_panic_sites (c : Cfg) : ∀ (fs : List (List Reset.YNode)) (dict : Val) (s : String),
-    processFiles c dict fs = .panic s → s = "transform.transformKeyValue"
+    processFiles c dict fs = .panic s → False
   | [], _, _, h => by cases h
   | f :: r, dict, s, h => by
     unfold processFiles at h
@@ -167,7 +168,7 @@ theorem processFiles_only_panic_sites (c : Cfg) : ∀ (fs : List (List Reset.YNo
       exact processNodes_only_panic_sites c f dict s hd
 
 theorem processDocs_only_panic_sites (c : Cfg) : ∀ (docs : List Val.KVs) (dict : Val) (s : String),
-    processDocs c dict docs = .panic s → s = "transform.transformKeyValue"
+    processDocs c dict docs = .panic s → False
   | [], _, _, h => by cases h
   | d :: r, dict, s, h => by
     unfold processDocs at h
@@ -193,17 +194,16 @@ theorem finishModel_only_panic_sites (c : Cfg) (dict : Val) (s : String) (h : fi
 
 /-- where a panic of the whole function can come from -/
 theorem load_panic_origin (c : Cfg) (docs : List Val.KVs) (s : String) (h : load c docs = .panic s) :
-    s = "transform.transformKeyValue" ∨
-    (c.opts.skipValidation = false ∧
-      s ∈ ["validation.init.checkFileObject", "validation.checkPath", "validation.checkDeviceRequest"]) := by
+    c.opts.skipValidation = false ∧
+      s ∈ ["validation.init.checkFileObject", "validation.checkPath", "validation.checkDeviceRequest"] := by
   unfold load at h
   split at h
   · cases h
   rcases bind_panic h with h1 | ⟨d, _, h⟩
   · unfold loadYamlModel at h1
     rcases bind_panic h1 with h2 | ⟨d0, _, h2⟩
-    · exact .inl (processDocs_only_panic_sites c docs _ s h2)
-    · exact .inr (finishModel_only_panic_sites c d0 s h2)
+    · exact (processDocs_only_panic_sites c docs _ s h2).elim
+    · exact finishModel_only_panic_sites c d0 s h2
   · exact absurd h (finishLoad_never_panics _ _ _)
 
 /-- **C01, composed**: for every configuration, every option combination and every list of documents, the whole
@@ -211,39 +211,39 @@ dictionary pipeline of `loader.LoadModelWithContext` yields a model or a stage e
 composed model has are the four reviewed assertion sites -/
 theorem load_only_panic_sites (c : Cfg) (docs : List Val.KVs) (s : String) (h : load c docs = .panic s) :
     s ∈ reviewedSites := by
-  rcases load_panic_origin c docs s h with h1 | ⟨_, h2⟩
-  · rw [h1]; simp [reviewedSites]
-  · simp only [reviewedSites, List.mem_cons, List.mem_nil_iff, or_false] at h2 ⊢
-    exact .inr h2
+  exact (load_panic_origin c docs s h).2
 
-/-- with validation skipped the three `validation` sites are out of reach as well: one site is left -/
-theorem load_skipValidation_only_panic_site (c : Cfg) (docs : List Val.KVs) (s : String)
-    (hv : c.opts.skipValidation = true) (h : load c docs = .panic s) : s = "transform.transformKeyValue" := by
-  rcases load_panic_origin c docs s h with h1 | ⟨h2, _⟩
-  · exact h1
-  · rw [hv] at h2; cases h2
+/-- with validation skipped the three `validation` sites are out of reach as well: no panic outcome is left -/
+theorem load_skipValidation_never_panics (c : Cfg) (docs : List Val.KVs) (s : String)
+    (hv : c.opts.skipValidation = true) : load c docs ≠ .panic s := by
+  intro h
+  have h2 := (load_panic_origin c docs s h).1
+  rw [hv] at h2; cases h2
+
 
 /-- the same for files given as YAML text (several `---` documents per file, `!reset` / `!override` tags) -/
 theorem loadY_panic_origin (c : Cfg) (files : List (List Reset.YNode)) (s : String) (h : loadY c files = .panic s) :
-    s = "transform.transformKeyValue" ∨
-    (c.opts.skipValidation = false ∧
-      s ∈ ["validation.init.checkFileObject", "validation.checkPath", "validation.checkDeviceRequest"]) := by
+    c.opts.skipValidation = false ∧
+      s ∈ ["validation.init.checkFileObject", "validation.checkPath", "validation.checkDeviceRequest"] := by
   unfold loadY at h
   split at h
   · cases h
   rcases bind_panic h with h1 | ⟨d, _, h⟩
   · unfold loadYamlModelY at h1
     rcases bind_panic h1 with h2 | ⟨d0, _, h2⟩
-    · exact .inl (processFiles_only_panic_sites c files _ s h2)
-    · exact .inr (finishModel_only_panic_sites c d0 s h2)
+    · exact (processFiles_only_panic_sites c files _ s h2).elim
+    · exact finishModel_only_panic_sites c d0 s h2
   · exact absurd h (finishLoad_never_panics _ _ _)
 
 theorem loadY_only_panic_sites (c : Cfg) (files : List (List Reset.YNode)) (s : String) (h : loadY c files = .panic s) :
     s ∈ reviewedSites := by
-  rcases loadY_panic_origin c files s h with h1 | ⟨_, h2⟩
-  · rw [h1]; simp [reviewedSites]
-  · simp only [reviewedSites, List.mem_cons, List.mem_nil_iff, or_false] at h2 ⊢
-    exact .inr h2
+  exact (loadY_panic_origin c files s h).2
+
+theorem loadY_skipValidation_never_panics (c : Cfg) (files : List (List Reset.YNode)) (s : String)
+    (hv : c.opts.skipValidation = true) : loadY c files ≠ .panic s := by
+  intro h
+  have h2 := (loadY_panic_origin c files s h).1
+  rw [hv] at h2; cases h2
 
 /-- **the glue is the source**: the stage calls of `loadYamlFile` (with its closure `processRawYaml`), `loadYamlModel`,
 `load`, `loadModelWithContext` and `ResolveEnvironment` — in source order, each with the option tests that guard it,
